@@ -10,6 +10,7 @@ Helper lemmas for L6 `DtRes` (used by `RTV/Props/C06.lean`, `RTV/Props/C07.lean`
 * dates: `Decodes` (what a layout's groups decode to), `matchToDate_of`, `resolveDate_valid`, `resolveDate_invalid`,
   two-digit-year pivot lemmas
 * designators through the `suffix` group: `adjustBySuffix_plain`, `resolveTime_designator`
+* ChineseTimeParser: `zhHandle_digit`, `zhPack_digit`, `resolveTimeZh_digit`
 * `<date> at <time>`: `merge_clock`, `allStrToPm_one` (`all_str_to_pm` on `<prefix>Thh<suffix>`),
   `dtRes_datetime_plain/ampm`, `resolveDateAtTime_clock`
 -/
@@ -907,6 +908,102 @@ theorem resolveTime_designator (u : Uni) (ha : u.Ascii) (cfg : TimeCfg) (st : Su
     cases c.ms <;> cases c.ss <;> simp
   rw [et]
   simpa [Clock.value] using this
+
+
+
+/-! ### `ChineseTimeParser` -/
+
+/-- a digit string whose first character is a decimal digit (what `regex.match(r'\d+', s)` tests) -/
+def DigitStart (u : Uni) (s : Str) : Prop := ∃ c r, s = c :: r ∧ (u.digitVal c).isSome = true
+
+theorem zhMatchToValue_num (u : Uni) (cfg : ZhCfg) (s : Str) (n : Nat) (h : IsNum u s n) (hd : DigitStart u s) :
+    zhMatchToValue u cfg s = .ok (n : Int) := by
+  obtain ⟨c, r, rfl, hc⟩ := hd
+  simp [zhMatchToValue, h.nonblank, hc, intOf, h.int]
+
+theorem zhMatchToValue_nil (u : Uni) (cfg : ZhCfg) : zhMatchToValue u cfg [] = .ok (-1) := by
+  simp [zhMatchToValue, blank_nil]
+
+/-- the `named_entity` values of a Chinese digit clock time `H:MM[:SS]` -/
+def Clock.zhGroups (c : Clock) : ZhGroups :=
+  { hour := c.hs, min := (c.ms.map (·.1)).getD [], sec := (c.ss.map (·.1)).getD [] }
+
+structure Clock.ZhWF (u : Uni) (c : Clock) : Prop where
+  wf : c.WF u
+  hasMin : c.ms.isSome = true
+  hourD : DigitStart u c.hs
+  minD : ∀ p, c.ms = some p → DigitStart u p.1
+  secD : ∀ p, c.ss = some p → DigitStart u p.1
+
+theorem zhHandle_digit (u : Uni) (cfg : ZhCfg) (c : Clock) (w : c.ZhWF u) :
+    zhHandle u cfg false c.zhGroups = .ok ((c.h : Int), (c.m : Int), (if c.ss.isSome then (c.s : Int) else -1)) := by
+  obtain ⟨hs, h, ms, ss⟩ := c
+  have hh := zhMatchToValue_num u cfg hs h w.wf.hour w.hourD
+  cases ms with
+  | none => have := w.hasMin; simp at this
+  | some p =>
+    have hp := zhMatchToValue_num u cfg p.1 p.2 (w.wf.minute p rfl).1 (w.minD p rfl)
+    cases ss with
+    | none =>
+      simp [zhHandle, Clock.zhGroups, hh, hp, zhMatchToValue_nil, bind, Except.bind, pure, Except.pure, Clock.m, Clock.s]
+    | some q =>
+      have hq := zhMatchToValue_num u cfg q.1 q.2 (w.wf.second q rfl).1 (w.secD q rfl)
+      simp [zhHandle, Clock.zhGroups, hh, hp, hq, bind, Except.bind, pure, Except.pure, Clock.m, Clock.s]
+
+theorem zhPack_digit (u : Uni) (cfg : ZhCfg) (hfix : cfg.ampmAnyHour = false) (c : Clock) (w : c.ZhWF u) (ref : DT)
+    (hv : ref.date.valid = true) :
+    zhPackTime u cfg c.zhGroups ((c.h : Int), (c.m : Int), (if c.ss.isSome then (c.s : Int) else -1)) ref =
+      .ok { success := true, timex := c.timex c.h, comment := if 0 < c.h ∧ c.h ≤ 12 then sAmPm else [],
+            future := ⟨ref.y, ref.m, ref.d, c.h, c.m, c.s⟩, past := ⟨ref.y, ref.m, ref.d, c.h, c.m, c.s⟩ } := by
+  have w60 := wf_m60 u c w.wf
+  have h24 := w.wf.h24
+  have vr := (valid_iff ref.date).1 hv
+  simp only [DT.date] at vr
+  have mk := mkDateTime_ok ref hv c.h c.m c.s h24 w60.1 w60.2
+  have mk0 := mkDateTime_ok ref hv c.h c.m 0 h24 w60.1 (by omega)
+  have vd : isValidDate ref.y ref.m ref.d = true := by
+    have := mkDateTime_ok ref hv 0 0 0 (by omega) (by omega) (by omega)
+    simp only [Int.natCast_zero, Int.ofNat_zero] at this
+    simp [isValidDate, this]
+  have n24 : ¬ ((c.h : Int) = 24) := by omega
+  obtain ⟨p, hp⟩ := Option.isSome_iff_exists.1 w.hasMin
+  have hpm : p.2 = c.m := by simp [Clock.m, hp]
+  have ft : (if 0 < c.m then (c.m : Int) else 0) = (c.m : Int) := by split <;> omega
+  have fh : (if 0 < c.h then (c.h : Int) else 0) = (c.h : Int) := by split <;> omega
+  have fs : (if 0 < c.s then (c.s : Int) else 0) = (c.s : Int) := by split <;> omega
+  have tv : isValidTime (c.h : Int) (c.m : Int) (c.s : Int) = true := by simp [isValidTime]; omega
+  have tv0 : isValidTime (c.h : Int) (c.m : Int) 0 = true := by simp [isValidTime]; omega
+  have cm : ((0 < c.h ∧ (c.h : Int) ≤ 12) ↔ (0 < c.h ∧ c.h ≤ 12)) := by omega
+  cases hs : c.ss with
+  | none =>
+    have s0 : c.s = 0 := by simp [Clock.s, hs]
+    simp only [Int.natCast_zero, Int.ofNat_zero] at mk0
+    simp [zhPackTime, Clock.zhGroups, blank_nil, hfix, hs, hp, s0, n24, ft, fh, safeCreateFromMinValue, safeCreateFromValue,
+      vd, tv0, mk0, Clock.timex, Clock.tail, hpm, cm]
+  | some q =>
+    have hqs : q.2 = c.s := by simp [Clock.s, hs]
+    have hs0 : ¬ ((c.s : Int) < 0) := by omega
+    simp [zhPackTime, Clock.zhGroups, blank_nil, hfix, hs, hp, n24, ft, fh, fs, safeCreateFromMinValue, safeCreateFromValue,
+      vd, tv, mk, Clock.timex, Clock.tail, hpm, hqs, cm]
+
+/-- Chinese digit clock time end to end (guarded variant) -/
+theorem resolveTimeZh_digit (u : Uni) (ha : u.Ascii) (cfg : ZhCfg) (hfix : cfg.ampmAnyHour = false) (c : Clock)
+    (w : c.ZhWF u) (ref : DT) (hv : ref.date.valid = true) :
+    resolveTimeZh u cfg false c.zhGroups ref =
+      .ok (some (if 1 ≤ c.h ∧ c.h ≤ 12 then [c.value c.h, c.value (pmHour c.h)] else [c.value c.h])) := by
+  have h24 := w.wf.h24
+  simp only [resolveTimeZh, zhHandle_digit u cfg c w, zhPack_digit u cfg hfix c w ref hv, bind, Except.bind]
+  split
+  · rename_i hc
+    have hc' : 1 ≤ c.h ∧ c.h ≤ 12 := by omega
+    simp only [hc', and_self, if_true]
+    have := dtRes_time_ampm u ha c.tail ref.y ref.m ref.d c.h c.m c.s (by omega) (tail_shape c)
+    simpa [Clock.timex, Clock.value] using this
+  · rename_i hc
+    have hc' : ¬ (1 ≤ c.h ∧ c.h ≤ 12) := by omega
+    simp only [hc', if_false]
+    have := dtRes_time_plain u (c.timex c.h) ref.y ref.m ref.d c.h c.m c.s (by omega)
+    simpa [Clock.value] using this
 
 
 end RTV.DtRes
